@@ -233,6 +233,33 @@ func c12Confinement(c *core.Ctx) {
 			}
 		}
 	}
+	// adversarial target names: every accepted name must get its own record file inside
+	// .dawn/build/targets (the record path is derived from the label)
+	advNames := []string{"..", ".", "%2F", "%", "a%2Fb", "%2e%2e", "BUILD.dawn", " ", "é", "a b", "\\", "name.with.dots", "-", "@v2", "a%", "%25", "A", "a", "con", "x\ty", "\u202e", "a//b", "a:b", ""}
+	for _, pkg := range []string{"//", "//a", "//a/b"} {
+		thread, globals := proj.REPLEnv(io.Discard, &label.Label{Package: pkg})
+		for _, nm := range advNames {
+			tn++
+			src := fmt.Sprintf("def f%d():\n    pass\nt = target(name=%q, function=f%d)\n", tn, nm, tn)
+			_, err := starlark.ExecFile(thread, "x.star", src, globals)
+			c.EvalN(1)
+			if err != nil {
+				c.Count("adversarial_names_rejected", 1)
+			} else {
+				c.Count("adversarial_names_accepted", 1)
+				c.Distinct("N" + pkg + ":" + nm)
+			}
+		}
+	}
+	work := filepath.Join(root, ".dawn", "build")
+	filepath.Walk(work, func(p string, info os.FileInfo, err error) error {
+		if err == nil && !info.IsDir() {
+			if rel, rerr := filepath.Rel(filepath.Join(work, "targets"), p); rerr == nil && !strings.HasPrefix(rel, "..") && strings.Contains(rel, string(filepath.Separator)) {
+				c.Violation("confine/records", "", "record-file-outside-the-flat-targets-directory", map[string]any{"file": p})
+			}
+		}
+		return nil
+	})
 	for _, sp := range proj.Sources() {
 		if !inside(sp) {
 			c.Violation("confine/sources", "", "path-escapes-root", map[string]any{"source": sp, "root": root})
